@@ -74,4 +74,11 @@ def run(ctx):
     CTX = ctx
     c02.CTX = ctx
     names = sched.op_names(groups=("core", "storage", "loop"), weights={"make_instr": 0, "lift_alloc": 6, "sink_alloc": 6, "stage_mem": 6, "reuse_buffer": 4, "fission": 5, "specialize": 4, "inline_window": 4, "unroll_loop": 4})
-    run_cases(ctx, c02.case_strategy(names), guarded(ctx, check_case), ctx.budget(400, 30000))
+    from ..common import run_systematic
+    from ..gen.templates import distinct_step_cases
+
+    val = {"fill": 1, "layout": 2, "cfg": [3, 5, 1, 2, 4], "pick": 7}
+    quick = ctx.tier == "quick"
+    sys_ops = [n for n in set(names) if sched.OPS[n]["group"] in ("storage", "loop") or n in ("inline", "inline_window", "bind_expr", "extract_subproc")]
+    run_systematic(ctx, distinct_step_cases(ctx.shard, ctx.nshards, sys_ops, val, params=(0, 1) if quick else (0, 1, 2, 5)), guarded(ctx, check_case), keep_one_in=32 if quick else 2, label="template-single-steps", presharded=True)
+    run_cases(ctx, c02.case_strategy(names), guarded(ctx, check_case), ctx.budget(256, 2048))
